@@ -35,6 +35,7 @@ type C06Case struct {
 	DelayMs  int        `json:"delay_ms"` // pause between handler writes
 	Attempts []C06Fault `json:"attempts"` // script for attempt 1..n; further attempts get "ok"
 	HoldMs   int        `json:"hold_ms"`  // pause of the handler after the first write (lets an early fault land while streaming)
+	HeaderMs int        `json:"header_ms"` // pause of the handler before WriteHeader (a slow backend: all attempts may fail before the response exists)
 }
 
 type C06Spec struct {
@@ -282,6 +283,9 @@ func c06Run(c C06Case, bound time.Duration) C06Result {
 			rw.Header().Add("Set-Cookie", "a="+c.ID)
 			rw.Header().Add("Set-Cookie", "b="+c.ID)
 			rw.Header().Set("Trailer", "X-T")
+			if c.HeaderMs > 0 {
+				time.Sleep(time.Duration(c.HeaderMs) * time.Millisecond)
+			}
 			rw.WriteHeader(207)
 			chunks := c.Chunks
 			if chunks < 1 {
